@@ -4292,6 +4292,12 @@ class TLSConnection(TLSRecordLayer):
 
                 # here we're assuming that the HRR was sent because of
                 # missing key share, that may not always be the case
+                if ext.client_shares is None:
+                    for result in self._sendError(AlertDescription
+                                                  .decode_error,
+                                                  "Empty key_share extension "
+                                                  "in second Client Hello"):
+                        yield result
                 if len(ext.client_shares) != 1:
                     for result in self._sendError(AlertDescription
                                                   .illegal_parameter,
